@@ -1,11 +1,13 @@
 /-
 C19 — "Fourier transforms invert and filters are the convolutions they claim to be".
 Property theorems over the model of `Model.lean`.  All statements hold for every array length, kernel, index range and
-element ring (no bounds).  What is NOT a theorem here: that a product of DFTs is a circular convolution
-(`C19_convolution_theorem_statement`, a `Prop`), the real-data packing trick, the n-dimensional recursion and every
-`float` rounding — those links are covered by the correspondence run against the implementation only.
+element ring (no bounds).  That a product of DFTs, transformed back, is `L` times the circular convolution by which the
+model replaces it is a theorem (`C19_convolution_theorem`, every length and primitive root).  What is NOT a theorem
+here: the real-data packing trick (`fourierRealData1` / `invFourierRealData1` = the complex transforms), the n-dimensional
+recursion and every `float` rounding — those links are covered by the correspondence run against the implementation only.
 -/
 import StirVerif.C19.Proofs
+import StirVerif.C19.ProofsConvThm
 
 namespace StirVerif.C19
 open Finset
@@ -236,14 +238,37 @@ theorem C19_inverse_fourier_inverts {K : Type} [Field K] [Inhabited K] (nn : Nat
       ∃ r', inverseFourierND (twiddle nn ωi) [2 ^ nn] r = some r' ∧ r'.size = 2 ^ nn ∧ ∀ k, k < 2 ^ nn → r'[k]? = c[k]? :=
   inverse_fourier1d_inverts nn ω ωi hω hinv c hc
 
-/-- NOT PROVED (correspondence-only), stated for the record: the product of the real-data DFTs of padded data and wrapped
-    kernel, transformed back, is their circular convolution `circConv1At` (convolution theorem); the real-data transforms
-    `fourierRealData1` / `invFourierRealData1` (packing trick) agree with the complex ones; the n-dimensional transforms
-    are the iterated 1-D ones.  These links are exercised by the correspondence run within the rounding bounds. -/
-def C19_convolution_theorem_statement : Prop :=
+/-- PROVED — the discrete convolution theorem, the link between "inverse transform of the product of the two transforms"
+    (what `ArrayFilterUsingRealDFTWithPadding::do_it` executes) and the circular convolution `circConv1At` by which the
+    model replaces it: at the level of the definition `r_k = Σ_j c_j ω^{jk}` (fourier.h), for EVERY length `L` and every
+    primitive `L`-th root of unity `ω ∈ ℂ` (`e^{±2πi/L}`), the transform with `ω⁻¹` of the pointwise product of the
+    transforms with `ω` of the wrapped kernel `kp` and the wrapped data `xp` is `L · (kp ⊛ xp)`; `inverse_fourier`
+    divides by `L` (`C19_convolution_theorem_inverse`).  Together with `C19_fft_eq_dft` this covers the complex
+    butterfly transforms for every power-of-two length.
+    STILL correspondence-only (exercised by the correspondence run within the rounding bounds, not proved): the real-data
+    transforms `fourierRealData1` / `invFourierRealData1` (packing trick) agree with the complex ones, and the
+    n-dimensional transforms are the iterated 1-D ones (so the n-D circular convolution `circConvNDAt` is not covered). -/
+theorem C19_convolution_theorem :
   ∀ (L : Nat) (ω : ℂ), IsPrimitiveRoot ω L → ∀ (kp xp : Array ℂ), kp.size = L → xp.size = L → ∀ p, p < L →
     dftSpec1 (fun m => ω⁻¹ ^ m) L (fun q => dftSpec1 (fun m => ω ^ m) L (fun j => kp.getD j 0) q *
-      dftSpec1 (fun m => ω ^ m) L (fun j => xp.getD j 0) q) p = (L : ℂ) * circConv1At L kp xp p
+      dftSpec1 (fun m => ω ^ m) L (fun j => xp.getD j 0) q) p = (L : ℂ) * circConv1At L kp xp p :=
+  fun L ω hω kp xp _ _ p hp => convolution_theorem L ω hω kp xp p hp
+
+/-- the same over any integral domain with a primitive `L`-th root of unity `ω` and `ω·ωi = 1` (e.g. a finite field:
+    number-theoretic transform); the array sizes are immaterial (positions beyond the size read as 0 on both sides) -/
+theorem C19_convolution_theorem_domain {K : Type} [CommRing K] [IsDomain K] (ω ωi : K) (L : Nat) (hω : IsPrimitiveRoot ω L)
+    (hinv : ω * ωi = 1) (kp xp : Array K) (p : Nat) (hp : p < L) :
+    dftSpec1 (fun m => ωi ^ m) L (fun q => dftSpec1 (fun m => ω ^ m) L (fun j => kp.getD j 0) q *
+      dftSpec1 (fun m => ω ^ m) L (fun j => xp.getD j 0) q) p = (L : K) * circConv1At L kp xp p :=
+  dft_convolution_circConv ω ωi L hω hinv kp xp p hp
+
+/-- … and with the division by the number of points that `inverse_fourier` performs, over any field in which `L ≠ 0`:
+    the inverse transform of the product of the transforms IS the circular convolution -/
+theorem C19_convolution_theorem_inverse {K : Type} [Field K] (ω : K) (L : Nat) (hω : IsPrimitiveRoot ω L) (hL : (L : K) ≠ 0)
+    (kp xp : Array K) (p : Nat) (hp : p < L) :
+    dftSpec1 (fun m => ω⁻¹ ^ m) L (fun q => dftSpec1 (fun m => ω ^ m) L (fun j => kp.getD j 0) q *
+      dftSpec1 (fun m => ω ^ m) L (fun j => xp.getD j 0) q) p / (L : K) = circConv1At L kp xp p :=
+  inverse_dft_of_product ω L hω hL kp xp p hp
 
 /-! ### non-vacuity: the hypotheses are satisfiable by concrete, non-trivial instances -/
 
@@ -270,6 +295,24 @@ example : ∃ r, fourier1d (twiddle 1 (-1 : ℤ)) #[3, 5] = some r ∧ r.size = 
     (IsPrimitiveRoot.mk_of_lt (-1) (by decide) (by decide) (by intro l h1 h2; interval_cases l; decide)) #[3, 5] rfl
 example : dftSpec1 (fun m => (-1 : ℤ) ^ m) 2 (fun j => (#[3, 5] : Array ℤ)[j]!) 0 = 8 ∧
     dftSpec1 (fun m => (-1 : ℤ) ^ m) 2 (fun j => (#[3, 5] : Array ℤ)[j]!) 1 = -2 := by decide
+
+/-- `Complex.I` is a primitive 4th root of unity: the convolution theorem applies to the length-4 arrays `[1,2,0,-1]`,
+    `[3,0,I,5]` at output index 2 … -/
+example : dftSpec1 (fun m => Complex.I⁻¹ ^ m) 4 (fun q =>
+      dftSpec1 (fun m => Complex.I ^ m) 4 (fun j => (#[1, 2, 0, -1] : Array ℂ).getD j 0) q *
+      dftSpec1 (fun m => Complex.I ^ m) 4 (fun j => (#[3, 0, Complex.I, 5] : Array ℂ).getD j 0) q) 2
+    = ((4 : Nat) : ℂ) * circConv1At 4 #[1, 2, 0, -1] #[3, 0, Complex.I, 5] 2 :=
+  C19_convolution_theorem 4 Complex.I Complex.isPrimitiveRoot_I #[1, 2, 0, -1] #[3, 0, Complex.I, 5] rfl rfl 2 (by decide)
+
+/-- … and over `ℤ` with `ω = ωi = -1`, `L = 2`, where both sides can be evaluated: `[3,5] ⊛ [2,7] = [41, 31]`, the
+    transform of the product of the transforms is `[82, 62]` -/
+example : dftSpec1 (fun m => (-1 : ℤ) ^ m) 2 (fun q => dftSpec1 (fun m => (-1 : ℤ) ^ m) 2 (fun j => (#[3, 5] : Array ℤ).getD j 0) q *
+      dftSpec1 (fun m => (-1 : ℤ) ^ m) 2 (fun j => (#[2, 7] : Array ℤ).getD j 0) q) 1 = ((2 : Nat) : ℤ) * circConv1At 2 #[3, 5] #[2, 7] 1 :=
+  C19_convolution_theorem_domain (-1 : ℤ) (-1) 2
+    (IsPrimitiveRoot.mk_of_lt (-1) (by decide) (by decide) (by intro l h1 h2; interval_cases l; decide)) (by decide) #[3, 5] #[2, 7] 1 (by decide)
+example : (List.range 2).map (circConv1At 2 (#[3, 5] : Array ℤ) #[2, 7]) = [41, 31] ∧
+    (List.range 2).map (dftSpec1 (fun m => (-1 : ℤ) ^ m) 2 (fun q => dftSpec1 (fun m => (-1 : ℤ) ^ m) 2 (fun j => (#[3, 5] : Array ℤ).getD j 0) q *
+      dftSpec1 (fun m => (-1 : ℤ) ^ m) 2 (fun j => (#[2, 7] : Array ℤ).getD j 0) q)) = [82, 62] := by decide
 
 /-- every power-of-two length has a primitive root over ℂ (`e^{2πi/N}`): the theorems cover the lengths 2 … 1024 and beyond -/
 example (nn : Nat) : IsPrimitiveRoot (Complex.exp (2 * Real.pi * Complex.I / ((2 ^ nn : Nat) : ℂ))) (2 ^ nn) :=
